@@ -71,7 +71,7 @@ func vfC11ReRun(cf vfC11ReCfg) explore.RunFunc {
 				return []time.Duration{n.Delay}
 			}
 			reAt := []time.Duration{40 * time.Millisecond, 90 * time.Millisecond}[vrt.Choose(2, "reconnect instant")]
-			idle := []time.Duration{10 * time.Second, 60 * time.Millisecond}[vrt.Choose(2, "handler idle deadline")]
+			idle := []time.Duration{10 * time.Second, 60 * time.Millisecond}[vrt.Choose(2, "idle deadline of the first conversation's handler")]
 			again := []time.Duration{-1, 0, 30 * time.Millisecond}[vrt.Choose(3, "second Close")]
 			desc = fmt.Sprintf("reconnect@%s idle=%s second-close=%s", reAt, idle, again)
 
@@ -165,8 +165,12 @@ func vfC11ReRun(cf vfC11ReCfg) explore.RunFunc {
 						exp := vfExpected(p.id, p.writes)
 						var got []byte
 						buf := make([]byte, 4096)
+						myIdle := 10 * time.Second
+						if p == pA1 {
+							myIdle = idle // only the first conversation's handler may give up early: that is the Close whose timing is varied
+						}
 						for {
-							s.SetReadDeadline(vrt.Now().Add(idle))
+							s.SetReadDeadline(vrt.Now().Add(myIdle))
 							n, err := s.Read(buf)
 							if err != nil {
 								break
